@@ -1704,12 +1704,14 @@ size_t rtosc_scan_arg_val(const char* src,
             size_t last_bufsize;
 
             char arrtype = ' ';
-            for(size_t i = 0; src && *src && *src != ']'; ++i)
+            while(src && *src && *src != ']')
             {
                 last_bufsize = *bufsize;
 
+                // args_before counts arg vals (a range takes 2 or 3), not elements
                 src += rtosc_scan_arg_val(src, arg, nargs,
-                                          buffer_for_strings, bufsize, i, 1);
+                                          buffer_for_strings, bufsize,
+                                          (size_t)num_read, 1);
                 arrtype = arg->type;
                 if(arrtype == '-')
                     arrtype = rtosc_av_rep_has_delta(arg) ? arg[2].type : arg[1].type;
